@@ -256,6 +256,7 @@ def plan(tier, seed):
          ("tree", dict(skeleton="TX", n=2, drivers=[])),
          ("tree", dict(skeleton="TX", n=2, drivers=["job"], args={"shared": True})),
          ("tree", dict(skeleton="TX", n=2, drivers=["usage"], args={"same_names": True})),
+         ("tree", dict(skeleton="T4", n=2, drivers=["usage"], args={"repeat": True}, values={"step1.user_time_spent": 50})),
          ("tree", dict(skeleton="T1", n=2, drivers=["infra", "job"], alt_units=0)),
          ("tree", dict(skeleton="T5", n=2, drivers=["infra"], alt_units=1)),
          ("tree", dict(skeleton="T1", n=2, drivers=["usage"], alt_units=1)),
